@@ -4914,6 +4914,9 @@ mod_webdav_put_range (request_st * const r, const buffer * const h,
   }
 
     if (fd != ifd) {
+        if (http_status_is_set(r)) /*(error writing; discard temporary copy)*/
+            unlink(pconf->tmpb->ptr);
+        else
       #ifndef HAVE_RENAMEAT2
         if (0 == rename(pconf->tmpb->ptr, r->physical.path.ptr))
       #else
